@@ -177,6 +177,9 @@ def _parse_raw_data(region_str):
             warnings.warn(f'"{frame_or_shape}" frame or shape is not a valid '
                           'frame or region shape; unable to parse line '
                           f'"{line}", skipping.', AstropyUserWarning)
+            # a skipped last member also ends the composite region
+            if '||' not in line:
+                composite_meta = {}
             continue
 
         if frame_or_shape in unsupported_frames_shapes:
@@ -185,6 +188,9 @@ def _parse_raw_data(region_str):
                           AstropyUserWarning)
             if frame_or_shape in unsupported_frames:
                 frame = None
+            elif '||' not in line:
+                # a skipped last member also ends the composite region
+                composite_meta = {}
             continue
 
         if frame_or_shape in supported_frames:
